@@ -28,6 +28,8 @@ def check(run):
     common.gen_structs(run, fams1=("ident",), fams2=("rinfo",))
     run.gen("Gen_Build", consts={"Fam": "ident"}, tag="Gen_Build_ident")
     # derived values follow the fields they are derived from: edits through exported fields after every query has been called once
+    from props import X06
+    X06.mc_cache(run)
     run.gen("Gen_WarmEdit", consts={"Part": "ident"}, tag="Gen_WarmEdit_ident")
     run.replay_and_judge()
     return vlib.finish(run, "model_checking", RULE, ASSUME)
